@@ -306,9 +306,11 @@ class Response:
         elif self.req.method == 'HEAD':
             # Responses to a HEAD request MUST NOT contain a response body.
             return False
-        elif self.status_code in (204, 304):
+        elif self.status_code in (204, 304) or (
+                self.status_code is not None and self.status_code < 200):
             # Do not use chunked responses when the response is guaranteed to
-            # not have a response body.
+            # not have a response body (1xx, e.g. 101 Switching Protocols,
+            # included: what follows the head is no longer ours to frame).
             return False
         return True
 
